@@ -195,6 +195,14 @@ Theorem c11_reqres_never_oom_partial : forall g s cl hid s',
   exists c, get_client s' cl = Some c /\ nreq g <= rc_used (cl_rc c).
 Proof. exact client_loan_oom_exact. Qed.
 Print Assumptions c11_reqres_never_oom_partial.
+(* NOT proved (visible on purpose): the link from a condition on the HISTORY to the hypothesis of
+   c11_routing_under_send_ok -- if no client ever takes over a dynamic-config slot that another
+   client had before (s_idxlog records (client, slot) of every client ever registered), no
+   response is handed out to a foreign client.  Tied by the correspondence runs: the extracted
+   hypothesis step_send_okb is evaluated on every step of every history and failed only in
+   histories that create a client after a client was dropped. *)
+Definition c11_routing_slot_link_full : Prop := forall g s, reach g s ->
+  NoDup (map snd (s_idxlog s)) -> forall p m, In (p, m) (s_rlog s) -> p_ocl m = pn_cl p.
 (* NOT proved (visible on purpose): conservation of the reference counts (stored counter =
    holders + queued + borrowed + not yet reclaimed), request delivery exactly once per connected
    server, per-(server, request) response order.  They are tied by the correspondence runs only. *)
